@@ -74,6 +74,8 @@ def weapon(s):
 
 
 def shot(s):
+    if s.get("_restate"):
+        return _restated_shot(s)
     ws = s.get("winds")
     return Shot(weapon=weapon(s), ammo=ammo(s),
                 look_angle=Angular.Degree(s.get("look_deg", 0.0)),
@@ -83,11 +85,105 @@ def shot(s):
                 winds=winds(ws) if ws else None)
 
 
+# ----------------------------------------------------------------------------- long-lived-session mode
+# A spec carrying "_restate": True is reached the way a long-lived session reaches it: the very same objects (Shot, Weapon,
+# Ammo, DragModel and its table list, Wind) first hold other values, are *used* in that state - by a throw-away calculator at
+# once, and by every calculator from build.calculator() right before its first real call with that shot - and are then given
+# their final values through public attributes (dataclass fields, Shot.winds setter, in-place edits of the drag table).
+# Physically the shot is the shot of the spec; anything the library memoised per object or per calculator would be stale.
+WARM_ENABLED = True
+_WARM = {}          # id(shot) -> (shot, apply_decoy, restore, set of warmed calculator ids)
+
+
+def _restated_shot(s):
+    final = {k: v for k, v in s.items() if k != "_restate"}
+    sh = shot(final)                  # final state; the decoy state is applied to these same objects
+    _WARM[id(sh)] = (sh, final, set())
+    _use_in_decoy_state(Calculator(), sh, final)        # object-level memos are filled in the decoy state
+    return sh
+
+
+IN_DECOY = False        # monitors pass through (record nothing) while a decoy state is being computed
+
+
+def _use_in_decoy_state(calc, sh, final):
+    """Put the shot's own objects into another state, use them, and put back exactly what was there before."""
+    import warnings
+    global IN_DECOY  # pylint: disable=global-statement
+    dm = sh.ammo.dm
+    had = {"look": sh.look_angle, "rel": sh.relative_angle, "cant": sh.cant_angle, "sh": sh.weapon.sight_height,
+           "tw": sh.weapon.twist, "ze": sh.weapon.zero_elevation, "mv": sh.ammo.mv, "pt": sh.ammo.powder_temp,
+           "tm": sh.ammo.temp_modifier, "ups": sh.ammo.use_powder_sensitivity, "bc": dm.BC, "w": dm.weight, "d": dm.diameter,
+           "l": dm.length, "cds": [p.CD for p in dm.drag_table], "winds": sh._winds,  # pylint: disable=protected-access
+           "wind_fields": [(w, w.velocity, w.direction_from, w.until_distance) for w in sh._winds],  # pylint: disable=protected-access
+           "atmo": sh.atmo}
+    IN_DECOY = True
+    try:
+        sh.look_angle = Angular.Degree(final.get("look_deg", 0.0) + 3.0)
+        sh.relative_angle, sh.cant_angle = Angular.Degree(1.3), Angular.Degree(5.0)
+        sh.weapon.sight_height = Distance.Inch(final.get("sight_height_in", 0.0) + 1.0)
+        sh.weapon.twist = Distance.Inch((final.get("twist_in", 0.0) or 8.0) * -1.5)
+        sh.weapon.zero_elevation = Angular.Degree(0.7)
+        sh.ammo.mv = Velocity.FPS(final["mv_fps"] * 0.5 + 400.0)
+        sh.ammo.powder_temp = Temperature.Celsius(33.0)
+        sh.ammo.temp_modifier, sh.ammo.use_powder_sensitivity = 0.02, True
+        sh.atmo = Atmo.icao(Distance.Foot((had["atmo"].altitude >> Distance.Foot) - 2500.0))     # another, lower station
+        dm.BC = had["bc"] * 1.7
+        dm.weight, dm.diameter, dm.length = Weight.Grain(123.0), Distance.Inch(0.277), Distance.Inch(1.11)
+        for p in dm.drag_table:
+            p.CD *= 1.3
+        ws = had["winds"]
+        if ws:
+            ws[0].velocity, ws[0].direction_from = Velocity.FPS(17.0), Angular.Degree(222.0)
+            ws[0].until_distance = Distance.Foot(1e7)              # the decoy order of the segments differs
+        with warnings.catch_warnings():
+            warnings.simplefilter("ignore")
+            _ = sh.winds
+            sh.ammo.get_velocity_for_temp(sh.atmo.powder_temp)
+            try:
+                Calculator.fire(calc, sh, Distance.Foot(45.0), Distance.Foot(15.0), extra_data=True)
+            except Exception:  # pylint: disable=broad-except
+                pass
+    finally:
+        sh.look_angle, sh.relative_angle, sh.cant_angle = had["look"], had["rel"], had["cant"]
+        sh.weapon.sight_height, sh.weapon.twist, sh.weapon.zero_elevation = had["sh"], had["tw"], had["ze"]
+        sh.ammo.mv, sh.ammo.powder_temp = had["mv"], had["pt"]
+        sh.ammo.temp_modifier, sh.ammo.use_powder_sensitivity = had["tm"], had["ups"]
+        dm.BC, dm.weight, dm.diameter, dm.length = had["bc"], had["w"], had["d"], had["l"]
+        for p, cd in zip(dm.drag_table, had["cds"]):
+            p.CD = cd
+        sh.atmo = had["atmo"]
+        sh._winds = had["winds"]  # pylint: disable=protected-access
+        for w, v, d, u in had["wind_fields"]:
+            w.velocity, w.direction_from, w.until_distance = v, d, u
+        IN_DECOY = False
+
+
+class _SessionCalculator(Calculator):
+    """A Calculator that, before its first real call with a 'restated' shot, has already computed that same Shot object
+    (same DragModel, table, winds objects) in its decoy state."""
+
+    def _vf_warm(self, sh):
+        entry = _WARM.get(id(sh)) if WARM_ENABLED else None
+        if entry is not None and entry[0] is sh and id(self) not in entry[2]:
+            entry[2].add(id(self))
+            _use_in_decoy_state(self, sh, entry[1])
+
+    def fire(self, shot, *a, **kw):  # pylint: disable=arguments-differ,redefined-outer-name
+        self._vf_warm(shot)
+        return super().fire(shot, *a, **kw)
+
+    def barrel_elevation_for_target(self, shot, *a, **kw):  # pylint: disable=arguments-differ,redefined-outer-name
+        self._vf_warm(shot)
+        return super().barrel_elevation_for_target(shot, *a, **kw)
+
+
 def calculator(config=None):
-    return Calculator(_config=dict(config)) if config else Calculator()
+    return _SessionCalculator(_config=dict(config)) if config else _SessionCalculator()
 
 
 def reset_globals():
     """Every case starts from the library defaults (the package import may have read a config file)."""
+    _WARM.clear()
     pb.PreferredUnits.defaults()
     pb.reset_globals()
